@@ -4,6 +4,7 @@ import ClusterVerif.Lemmas.C02Ctx
 import ClusterVerif.Model.C02Source
 import ClusterVerif.Gen.C02
 import ClusterVerif.Model.C02Hooks
+import ClusterVerif.Lemmas.C02Keys
 
 /-!
 # C02 — CRDT: replicas converge; batching neither loses nor reorders operations
@@ -964,6 +965,72 @@ theorem shutdown_loses_only_a_suffix (cfg : Cfg) (me : Who) (evs : List CEv) (c 
   exact ⟨by simpa [cshutdown, List.append_assoc] using h1, by simpa [cshutdown] using h2, rfl, rfl, rfl, rfl⟩
 
 end HooksCfg
+
+
+/-! ### Round 8c: who writes which (key, value) pairs; the dsstate key namespace -/
+section Writers
+open Hk
+
+/-- **no history of peers running this code produces a key/value cid mismatch or an undecodable value**: take ANY
+    sequence of events at a replica — local batches of LogPin/LogUnpin operations (`State.Add/Rm` pairs: cid key,
+    value carrying the key's cid; a batch of one = batching off) and merges of deltas written the same way by other
+    peers, in any order, any ids and priorities —: every stored (key, value) is a `State.Add` pair, every element and
+    tombstone sits on a cid key, and EVERY hook fired on the way is `wfHook`. This discharges the well-formedness
+    hypothesis of `tracker_gets_every_hook` / `track_matches_list_partial` for the quantifier of the property; the
+    mismatch / undecodable entries of round 8b need a writer that does not run this code. -/
+theorem wellformed_writers_keep_kv_consistent (enc : Enc) (es : List WEv) (hes : ∀ e ∈ es, e.wf enc = true) :
+    wfRep enc (wrun es {}).1 = true ∧ ∀ h ∈ (wrun es {}).2, wfHook enc h = true :=
+  wrun_wf enc es {} (by simp [wfRep]) hes
+
+example : ∀ e ∈ [WEv.localBatch [.put 1 1005, .del 1, .put 2 2007] 0 1, .remote ⟨7, 1, [(1, 1009)], []⟩, .localBatch [.del 1] 1 2],
+    e.wf encStd = true := by decide
+
+/-- … hence every tracker call of such a history is exactly the one the property asks for -/
+theorem wellformed_writers_tracker_calls (enc : Enc) (es : List WEv) (hes : ∀ e ∈ es, e.wf enc = true)
+    (pre post : List Hook) (h : Hook) (hh : (wrun es {}).2 = pre ++ h :: post) :
+    wfHook enc h = true :=
+  (wellformed_writers_keep_kv_consistent enc es hes).2 h (by rw [hh]; simp)
+
+/-- the same for a plain list of remote deltas merged in list order (`mergeAll`) from any well-formed replica -/
+theorem wellformed_deltas_merge (enc : Enc) (l : List Delta) (r : Rep) (hr : wfRep enc r = true)
+    (hl : ∀ d ∈ l, wfDelta enc d = true) :
+    wfRep enc (mergeAll l r) = true ∧ ∀ h ∈ mergeAllHooks l r, wfHook enc h = true :=
+  mergeAll_wf enc l r hr hl
+
+/-- a single foreign delta is enough to leave the invariant: it is NOT a property of the merge -/
+theorem foreign_delta_breaks_kv : ¬ ∀ (d : Delta), wfRep encStd (({} : Rep).merge d).1 = true := by
+  intro h
+  have := h ⟨0, 1, [(0, 1005)], []⟩
+  revert this
+  decide
+
+/-- `unkey (key c) = c` in every namespace; `key` is injective; a state key is under the state's prefix -/
+theorem ns_key_roundtrip (ns : DsKey) (c c' : Nat) :
+    unkey (stKey ns c) = some c ∧ underPrefix ns (stKey ns c) = true ∧ (stKey ns c = stKey ns c' → c = c') :=
+  ⟨unkey_stKey ns c, stKey_under ns c, stKey_inj ns c c'⟩
+
+/-- `List` and `Get` agree on an entry written by `State.Add` -/
+theorem ns_list_get_agree_on_state_entry (ns : DsKey) (c n : Nat) (oc : Option Nat) :
+    stList ns [(stKey ns c, .pin oc n)] = [(c, n)] ∧ stGet ns [(stKey ns c, .pin oc n)] c = some n := by
+  constructor
+  · simp [stList, stKey_under, unkey_stKey]
+  · simp [stGet, List.lookup]
+
+/-- "`List` shows only what `Get` can read" is FALSE for foreign keys under the prefix: `unkey` looks at the last
+    component only, so a nested key `/x/<cid 0>` is LISTED as cid 0 while `Get(0)`/`Has(0)` read `/<cid 0>` and find
+    nothing; its delete never untracks (`BinaryFromDsKey` of a two-component key fails) -/
+theorem ns_list_subset_get_fails :
+    ¬ ∀ (ns : DsKey) (s : KStore) (c n : Nat), (c, n) ∈ stList ns s → stGet ns s c = some n := by
+  intro h
+  have := h [] [([.name 7, .cid 0], .pin (some 0) 5)] 0 5 (by decide)
+  revert this
+  decide
+
+theorem ns_nested_key_listed_not_untracked :
+    stList [] [([.name 7, .cid 0], .pin (some 0) 5)] = [(0, 5)] ∧ delHookK [.name 7, .cid 0] = [] ∧
+    delHookK (stKey [] 0) = [.untrack 0] := by decide
+
+end Writers
 
 /-! ### The anchored functions still read as the model was transcribed (regenerated from /repo on every run) -/
 
